@@ -51,6 +51,7 @@ def replay_tails(pyhf, backend, precision, chunk, seed, ntoys):
     import numpy as np
     out = {"n": 0, "nontrivial": 0, "findings": [], "toys": 0}
     pyhf.set_backend(backend, "scipy", precision=precision)
+    models = {}      # one model object per (s, b): reused for every observed count and tested mu that follows
     for ci, line in enumerate(chunk):
         c = json.loads(line)
         s, b, nobs, mu = c["s"], c["b"], c["n"], c["mu"]
@@ -58,7 +59,7 @@ def replay_tails(pyhf, backend, precision, chunk, seed, ntoys):
         spec = {"channels": [{"name": "ch", "samples": [
             {"name": "sig", "data": [float(s)], "modifiers": [{"name": "mu", "type": "normfactor", "data": None}]},
             {"name": "bkg", "data": [float(b)], "modifiers": []}]}], "parameters": []}
-        model = pyhf.Model(spec, poi_name="mu")
+        model = models.setdefault((s, b), pyhf.Model(spec, poi_name="mu"))
         data = [float(nobs)]
         qobs = q_tilde(nobs, mu, s, b)
         nmax = int(mu * s + b + 12 * math.sqrt(mu * s + b) + 30)
